@@ -486,6 +486,28 @@ def case_seeds(c):
         viol.append({'site': 'Frame', 'failure': 'not_isolated', 'detail': 'filling a second frame created from the same array changed the first frame'})
     if not np.array_equal(src, src0):
         viol.append({'site': 'Frame', 'failure': 'caller_array_modified', 'detail': 'the array a frame was created from was written into'})
+    # two frames built from ONE blimpy Waterfall object (the caller's) are independent of each other and of that object
+    try:
+        from blimpy import Waterfall
+        import contextlib as _cl, io as _io
+        fnw = os.path.join(engine.workdir(), 'c12_wfshare_%d.fil' % s)
+        with _cl.redirect_stdout(_io.StringIO()):
+            f1.save_fil(fnw)
+            for load in (lambda: Waterfall(fnw),):
+                w = load()
+                w0 = np.array(w.data, copy=True)
+                fa = stg.Frame(waterfall=w, seed=s)
+                fb = stg.Frame(waterfall=w, seed=s + 1)
+                b0 = np.array(fb.data, copy=True)
+                fa.add_noise(1.0e3)
+                fa.add_signal(fa.get_frequency(2), 5.0, stg.gaussian_f_profile(4.0))
+        if not np.array_equal(fb.data, b0):
+            viol.append({'site': 'Frame', 'failure': 'not_isolated', 'detail': 'adding noise / a signal to one frame built from a Waterfall object changed a second frame built from the same object'})
+        if not np.array_equal(np.asarray(w.data), w0):
+            viol.append({'site': 'Frame', 'failure': 'caller_array_modified', 'detail': 'adding noise / a signal to a frame built from a Waterfall object wrote into that object\'s data'})
+        os.remove(fnw)
+    except Exception as e:
+        viol.append({'site': 'Frame', 'failure': 'raised', 'detail': 'frames from one Waterfall object: %s: %s' % (type(e).__name__, e)})
     # two streams with different seeds and TWO noise sources each: no source of one may repeat a source of the other
     s1 = sv.DataStream(sample_rate=1e3, seed=s); s2 = sv.DataStream(sample_rate=1e3, seed=s + 1)
     for st in (s1, s2):
